@@ -38,8 +38,10 @@ RTOLS = [0.02, 0.05]
 F1, F2 = 10.0, 20.0
 REQS = [(F1, F2), (F1,), (F2,)]
 # explicit-order cell catalogue
-ESYMS = ["10.0", "10.3", "11.0", "20.0", "19.2", "15.0", "nan", "twin"]
-EVAL = [10.0, 10.3, 11.0, 20.0, 19.2, 15.0, None, "twin"]
+# 10.51 and 10.202 sit just OUTSIDE the relative band of 10.0 (5.1 % for rtol 0.05, 2.02 % for rtol 0.02) on the upper side, where a
+# tolerance taken relative to the larger of the two values instead of the requested frequency would still accept them
+ESYMS = ["10.0", "10.3", "11.0", "20.0", "19.2", "15.0", "nan", "twin", "10.51", "10.202"]
+EVAL = [10.0, 10.3, 11.0, 20.0, 19.2, 15.0, None, "twin", 10.51, 10.202]
 E_NAN, E_TWIN = 6, 7
 EL_SUB_Q = [0, 3, 1, 6]          # 10.0, 20.0, 10.3, nan
 EL_SUB_T = [0, 3, 1, 4, 6]       # + 19.2
